@@ -93,7 +93,11 @@ pub const DBL_POOL: &[f64] = &[
     0.0, -0.0, 1.0, -1.0, 0.5, 1.5, 2.25, -3.75, 10.0, 1024.0, 1e10, 0.1, 1e300, -1e300, 9007199254740992.0,
     9007199254740994.0, 9223372036854775808.0, -9223372036854775808.0, 18446744073709551616.0, 4.9e-324,
 ];
-pub const STR_POOL: &[&str] = &["", "a", "b", "ab", "abc", "k1", "x", "é", "ß∂", "🐱", "a b", "true", "1"];
+pub const STR_POOL: &[&str] = &["", "a", "b", "ab", "abc", "k1", "x", "é", "ß∂", "🐱", "a b", "true", "1", "size"];
+/// doubles that occur only as context values (no literal spelling)
+pub const DBL_VAL_POOL: &[f64] = &[f64::NAN, f64::INFINITY, f64::NEG_INFINITY, 0.0, -0.0, 1.5];
+/// field names for e.f / has(e.f): map keys of the pools, a key that never occurs, and names of registered functions
+pub const FIELD_POOL: &[&str] = &["a", "b", "k1", "x", "nokey", "size", "h1"];
 pub const BYTES_POOL: &[&[u8]] = &[b"", b"a", b"ab", b"abc", b"\xff", b"\x00\x01"];
 
 pub fn int_lit(i: i64) -> String {
@@ -141,12 +145,15 @@ pub struct Knobs {
     pub doubles: bool,
     pub logic_bias: bool,     // favour && || ?: (C06)
     pub clash_names: bool,    // macro variables may shadow context variables (C11)
+    pub chain_pct: u32,       // chance (in %) that a macro ranges over another macro's result, reusing its variable (C10)
+    pub self_pct: u32,        // chance (in %) that == / != / in compare an operand with itself (aliases of one value)
+    pub coll_bias: bool,      // favour list / map / string results (C14)
     pub max_list: usize,
 }
 
 impl Default for Knobs {
     fn default() -> Self {
-        Knobs { max_depth: 4, wrap_pct: 10, err_pct: 5, macros: true, host_calls: true, doubles: true, logic_bias: false, clash_names: false, max_list: 4 }
+        Knobs { max_depth: 4, wrap_pct: 10, err_pct: 5, macros: true, host_calls: true, doubles: true, logic_bias: false, clash_names: false, chain_pct: 5, self_pct: 10, coll_bias: false, max_list: 4 }
     }
 }
 
@@ -155,6 +162,7 @@ pub struct Ctx {
 }
 
 pub struct Gen<'a> {
+    pub last_var: Option<String>,
     pub rng: &'a mut Rng,
     pub knobs: Knobs,
     pub scope: Vec<(String, T)>, // variables visible (context + macro variables)
@@ -188,7 +196,7 @@ pub fn gen_value(rng: &mut Rng, ty: &T, max_len: usize) -> Value {
                 Value::UInt(rng.next_u64() >> rng.below(64))
             }
         }
-        T::Dbl => Value::Float(*rng.pick(DBL_POOL)),
+        T::Dbl => Value::Float(if rng.chance(1, 4) { *rng.pick(DBL_VAL_POOL) } else { *rng.pick(DBL_POOL) }),
         T::Str => Value::String(Arc::new(rng.pick(STR_POOL).to_string())),
         T::Bytes => Value::Bytes(Arc::new(rng.pick(BYTES_POOL).to_vec())),
         T::Null => Value::Null,
@@ -222,6 +230,8 @@ pub fn gen_context(rng: &mut Rng, max_len: usize) -> Ctx {
         ("vl1", T::List(b(T::Int))),
         ("vl2", T::List(b(T::Str))),
         ("vl3", T::List(b(T::List(b(T::Int))))),
+        ("vl4", T::List(b(T::Dbl))),
+        ("vm4", T::Map(b(T::Str), b(T::Dbl))),
         ("vm1", T::Map(b(T::Str), b(T::Int))),
         ("vm2", T::Map(b(T::Int), b(T::Str))),
         ("vm3", T::Map(b(T::Uint), b(T::Int))),
@@ -243,7 +253,7 @@ pub fn gen_context(rng: &mut Rng, max_len: usize) -> Ctx {
 impl<'a> Gen<'a> {
     pub fn new(rng: &'a mut Rng, knobs: Knobs, ctx: &Ctx) -> Self {
         let scope = ctx.vars.iter().map(|(n, t, _)| (n.clone(), t.clone())).collect();
-        Gen { rng, knobs, scope, tag: 0 }
+        Gen { last_var: None, rng, knobs, scope, tag: 0 }
     }
     fn next_tag(&mut self) -> i64 {
         self.tag += 1;
@@ -342,6 +352,16 @@ impl<'a> Gen<'a> {
         }
     }
     fn macro_var(&mut self) -> String {
+        if let Some(v) = self.last_var.take() {
+            if self.rng.chance(2, 3) {
+                return v;
+            }
+        }
+        let v = self.macro_var_fresh();
+        self.last_var = Some(v.clone());
+        v
+    }
+    fn macro_var_fresh(&mut self) -> String {
         if self.knobs.clash_names {
             self.rng.pick(&["x", "y", "z", "vi1", "vs1", "size"]).to_string()
         } else {
@@ -350,6 +370,32 @@ impl<'a> Gen<'a> {
     }
     /// range expression for a macro: a list or a map (ranging over keys); returns (expr, element type)
     fn macro_range(&mut self, d: usize) -> (G, T) {
+        self.last_var = None;
+        if self.knobs.macros && self.pct(self.knobs.chain_pct) {
+            // a chain: the range is itself a filter / map over a list
+            let et = self.elem_types();
+            let (r, st) = if self.rng.chance(1, 2) {
+                let st = self.elem_types();
+                (self.expr(&T::List(Box::new(st.clone())), d.min(1)), st)
+            } else {
+                (self.expr(&T::List(Box::new(et.clone())), d.min(1)), et.clone())
+            };
+            let v = self.macro_var_fresh();
+            let inner = if st == et && self.rng.chance(2, 3) {
+                let f = self.with_var(&v, &st, |s| s.expr(&T::Bool, d));
+                G::Macro(Box::new(r), "filter", v.clone(), vec![f])
+            } else if self.rng.chance(1, 3) {
+                let et2 = et.clone();
+                let (f, b) = self.with_var(&v, &st, |s| (s.expr(&T::Bool, d), s.expr(&et2, d)));
+                G::Macro(Box::new(r), "map", v.clone(), vec![f, b])
+            } else {
+                let et2 = et.clone();
+                let b = self.with_var(&v, &st, |s| s.expr(&et2, d));
+                G::Macro(Box::new(r), "map", v.clone(), vec![b])
+            };
+            self.last_var = Some(v);
+            return (inner, et);
+        }
         if self.rng.chance(1, 4) {
             let kt = if self.rng.chance(1, 2) { T::Str } else { T::Int };
             let mt = T::Map(Box::new(kt.clone()), Box::new(T::Int));
@@ -433,15 +479,27 @@ impl<'a> Gen<'a> {
                     }
                     8 => {
                         let op = *self.rng.pick(&["==", "!="]);
-                        let t = match self.rng.below(6) {
+                        let t = match self.rng.below(9) {
                             0 => T::List(Box::new(T::Int)),
                             1 => T::Map(Box::new(T::Str), Box::new(T::Int)),
                             2 => T::Bytes,
                             3 => T::Null,
                             4 => T::Str,
+                            5 => T::List(Box::new(T::Dbl)),
+                            6 => T::Map(Box::new(T::Str), Box::new(T::Dbl)),
+                            7 => T::Dbl,
                             _ => T::Int,
                         };
-                        G::Bin(op, bx(self.expr(&t, d)), bx(self.expr(&t, d)))
+                        let a = self.expr(&t, d);
+                        if self.pct(self.knobs.self_pct * 3) {
+                            // both operands are the same expression: aliases of one value when it is a variable
+                            let b = a.clone();
+                            if self.rng.chance(1, 3) {
+                                return G::Bin("in", bx(a), bx(G::List(vec![b])));
+                            }
+                            return G::Bin(op, bx(a), bx(b));
+                        }
+                        G::Bin(op, bx(a), bx(self.expr(&t, d)))
                     }
                     9 => {
                         // membership
@@ -462,7 +520,7 @@ impl<'a> Gen<'a> {
                     }
                     12 => {
                         let m = self.expr(&T::Map(Box::new(T::Str), Box::new(T::Int)), d);
-                        G::Has(bx(m), self.rng.pick(&["a", "b", "k1", "x", "nokey"]).to_string())
+                        G::Has(bx(m), self.rng.pick(FIELD_POOL).to_string())
                     }
                     13 => {
                         let f = *self.rng.pick(&["startsWith", "endsWith", "contains"]);
@@ -512,7 +570,7 @@ impl<'a> Gen<'a> {
                         G::Call(f.into(), vec![G::List((0..=n).map(|_| self.expr(&T::Int, d)).collect())])
                     }
                 }
-                10 => G::Sel(bx(self.expr(&T::Map(Box::new(T::Str), Box::new(T::Int)), d)), self.rng.pick(&["a", "b", "k1", "x"]).to_string()),
+                10 => G::Sel(bx(self.expr(&T::Map(Box::new(T::Str), Box::new(T::Int)), d)), self.rng.pick(FIELD_POOL).to_string()),
                 _ => self.leaf(ty),
             },
             T::Uint => match self.rng.below(8) {
